@@ -9,24 +9,26 @@ SAFE = ["Model/Exec.v", "Model/ExecInv.v", "Proofs/ExecSafe.v", "Proofs/ExecCor.
 LIVE = SAFE + ["Proofs/ExecLive.v", "Proofs/ExecMeasure.v", "Proofs/ExecLiveCor.v"]
 
 TABLE = {
-    "C01": dict(kinds=["block", "step", "dep"], oracle=oracles.c01, cone=SAFE, n=(70, 700)),
-    "C02": dict(kinds=["block", "step", "dep"], oracle=oracles.c02, cone=LIVE, n=(70, 700)),
+    "C01": dict(kinds=["block", "step", "dep", "cblock"], oracle=oracles.c01, cone=SAFE, n=(70, 700)),
+    "C02": dict(kinds=["block", "step", "dep", "cblock"], oracle=oracles.c02, cone=LIVE, n=(70, 700)),
     "C03": dict(kinds=["dep"], oracle=oracles.c03,
-                cone=["Model/Exec.v", "Model/ExecInv.v", "Model/StepExec.v", "Model/DepExec.v", "Proofs/ExecLive.v", "Proofs/DepSafe.v"], n=(180, 1500)),
+                cone=["Model/Exec.v", "Model/ExecInv.v", "Model/StepExec.v", "Model/DepExec.v", "Proofs/ExecLive.v", "Proofs/DepSafe.v",
+                      "Model/Traverse.v", "Proofs/TraverseProofs.v"], n=(180, 1500)),
     "C04": dict(kinds=["dep", "step", "block"], oracle=oracles.c04,
                 cone=["Model/Exec.v", "Model/ExecInv.v", "Model/StepExec.v", "Model/DepExec.v", "Model/Worker.v", "Proofs/ExecLive.v",
                       "Proofs/DepSafe.v", "Proofs/C04Proofs.v"], n=(70, 700)),
-    "C05": dict(kinds=["block", "step", "dep"], oracle=oracles.c05, cone=LIVE, n=(70, 700)),
-    "C06": dict(kinds=["block", "step", "dep"], oracle=oracles.c06, cone=SAFE, n=(70, 700)),
+    "C05": dict(kinds=["block", "step", "dep", "cblock"], oracle=oracles.c05, cone=LIVE, n=(70, 700)),
+    "C06": dict(kinds=["block", "step", "dep", "cblock"], oracle=oracles.c06, cone=SAFE, n=(70, 700)),
     "C07": dict(kinds=["step", "dep", "block"], oracle=oracles.c07,
                 cone=SAFE + ["Model/StepExec.v", "Proofs/StepSafe.v", "Proofs/DictFacts.v", "Proofs/C10Proofs.v"], n=(90, 800)),
-    "C11": dict(kinds=["block", "step", "dep"], oracle=oracles.c11, cone=SAFE + ["Model/StepExec.v", "Proofs/StepSafe.v"], n=(70, 700)),
-    "C12": dict(kinds=["block", "step", "dep"], oracle=oracles.c12, cone=LIVE, n=(70, 700)),
+    "C11": dict(kinds=["block", "step", "dep", "cblock"], oracle=oracles.c11, cone=SAFE + ["Model/StepExec.v", "Proofs/StepSafe.v"], n=(70, 700)),
+    "C12": dict(kinds=["block", "step", "dep", "cblock"], oracle=oracles.c12, cone=LIVE, n=(70, 700)),
 }
 
 RULE = ("seeded programs of submit / cancel / result / shutdown(wait, cancel_futures) / with-exit operations (implicit drop at "
         "the end) with 0-4 calls (some raising, some depending on earlier futures, nested-list arguments, per-call resources) on "
-        "block-allocation (1-3 workers), per-call-process (max_cores / max_workers limits) and dependency-resolving executors, each "
+        "block-allocation (1-3 workers; also with cache_directory set, where the run is compared with the same model after "
+        "projecting the directory/HDF5 operations away and where an injected I/O fault may hit the k-th HDF5 operation), per-call-process (max_cores / max_workers limits) and dependency-resolving executors, each "
         "under a seeded schedule (uniform, biased, bursty); the real executorlib runs under the deterministic simulator, the "
         "implementation's picks are replayed on the Coq model (vm_compute) and enabled sets, labels and final observations are "
         "compared step by step; the property's oracle is evaluated on every implementation run; distinct = distinct traces")
@@ -101,6 +103,17 @@ def run(res, pid):
                             props_ready=ready)
     if pid in ("C01", "C12"):
         real_slice(res, pid, {"C01": "byvalue", "C12": "ghost"}[pid])
+    if pid == "C03":
+        import traverse
+        try:
+            bad = traverse.tie(res, 150 if res.tier == "quick" else 1500)
+        except core.CaseEvalError as ex:
+            bad = None
+            res.violation("Model/Traverse.v could not be evaluated: %s" % ex, {"kind": "correspondence", "theorem": "Model/Traverse.v"}, found_input=False)
+        if bad:
+            c, g, w = bad[0]
+            res.violation("the argument traversals differ from Model/Traverse.v (futures waited for / replaced)",
+                          {"kind": "correspondence", "case": c, "implementation": g, "model": w, "count": len(bad)})
     if pid == "C04":
         n, fails = exception_fidelity(res)
         res.cov["exception_fidelity_cases"] = n
